@@ -82,6 +82,10 @@ pub struct LinkState<M> {
     pub max_queue: usize,
     /// Everything accepted by `start_send`, in order.
     pub transcript: Vec<M>,
+    /// Global event sequence number (across all links of the run) of each `start_send`.
+    pub sent_seq: Vec<u64>,
+    /// Global event sequence number of each delivery to the receiver, in delivery order.
+    pub delivered_seq: Vec<u64>,
     /// Optional traffic rewriting (drop / duplicate / mutate): message -> delivered messages.
     pub tamper: Option<Box<dyn FnMut(M) -> Vec<M>>>,
     pub name: &'static str,
@@ -96,6 +100,24 @@ pub struct SimSink<M> {
 pub struct SimStream<M> {
     pub link: Link<M>,
     sleep: Option<Pin<Box<tokio::time::Sleep>>>,
+    polls_after_end: u32,
+}
+
+/// Polling a finished stream this many times in a row without anything else happening is a busy
+/// loop in the code under test (it would spin on the simulator thread forever).
+pub const BUSY_LOOP_LIMIT: u32 = 20_000;
+
+thread_local! {
+    static SEQ: std::cell::Cell<u64> = const { std::cell::Cell::new(0) };
+}
+
+/// Global (per simulator thread) event sequence number: orders sends and deliveries across links.
+pub fn next_seq() -> u64 {
+    SEQ.with(|s| {
+        let v = s.get();
+        s.set(v + 1);
+        v
+    })
 }
 
 /// One direction of a connection.
@@ -114,10 +136,12 @@ pub fn link<M: Clone>(name: &'static str, cfg: LinkConfig) -> (SimSink<M>, SimSt
         delivered: 0,
         max_queue: 0,
         transcript: Vec::new(),
+        sent_seq: Vec::new(),
+        delivered_seq: Vec::new(),
         tamper: None,
         name,
     }));
-    (SimSink { link: st.clone() }, SimStream { link: st, sleep: None })
+    (SimSink { link: st.clone() }, SimStream { link: st, sleep: None, polls_after_end: 0 })
 }
 
 impl<M> LinkState<M> {
@@ -187,6 +211,7 @@ impl<M: Clone + Unpin> Sink<M> for SimSink<M> {
         self.op()?;
         let mut c = self.link.borrow_mut();
         c.transcript.push(item.clone());
+        c.sent_seq.push(next_seq());
         c.sent += 1;
         let items = match c.tamper.as_mut() {
             Some(t) => t(item),
@@ -266,6 +291,13 @@ impl<M: Unpin> Stream for SimStream<M> {
                     ctx::fault("close_at");
                     c.delivered += 1; // count the fault once
                 }
+                this.polls_after_end += 1;
+                if this.polls_after_end > BUSY_LOOP_LIMIT {
+                    let name = c.name;
+                    drop(c);
+                    crate::ctx::violation("busy-loop", "closed message stream polled again and again without yielding", format!("stream {name} returned None {BUSY_LOOP_LIMIT} times in a row"));
+                    panic!("SIM-ABORT busy loop on closed stream {name}");
+                }
                 return Poll::Ready(None);
             }
         }
@@ -296,12 +328,20 @@ impl<M: Unpin> Stream for SimStream<M> {
             }
             let (m, _) = c.q.pop_front().unwrap();
             c.delivered += 1;
+            c.delivered_seq.push(next_seq());
             if let Some(w) = c.tx_waker.take() {
                 w.wake();
             }
             return Poll::Ready(Some(Ok(m)));
         }
         if c.tx_closed {
+            this.polls_after_end += 1;
+            if this.polls_after_end > BUSY_LOOP_LIMIT {
+                let name = c.name;
+                drop(c);
+                crate::ctx::violation("busy-loop", "closed message stream polled again and again without yielding", format!("stream {name} returned None {BUSY_LOOP_LIMIT} times in a row"));
+                panic!("SIM-ABORT busy loop on closed stream {name}");
+            }
             return Poll::Ready(None);
         }
         c.rx_blocked_empty = true;
